@@ -12,6 +12,9 @@ unset GOFLAGS GOTOOLCHAIN GOSUMDB; export GOPROXY=off
 cp patch.diff $OUT/patch.diff || exit 2
 DEMOFILE=$(ls zz_seed_demo_test.go */zz_seed_demo_test.go */*/zz_seed_demo_test.go 2>/dev/null | head -1)
 mkdir -p $OUT/demo; cp $DEMOFILE $OUT/demo/ ; cp NOTES.md $OUT/NOTES.agent.md 2>/dev/null
+ONLY=${SEED_ONLY:-all}
+with=-; without=-; suite=-; res=""
+if [ $ONLY = all -o $ONLY = demo ]; then
 echo "== demo WITH the change (must fail)"
 timeout 300 go test -mod=mod -vet=off -count=1 -run "$DEMO" $PKG > $OUT/demo_with.txt 2>&1; with=$?
 tail -3 $OUT/demo_with.txt
@@ -20,12 +23,15 @@ git stash push -q -- $(git diff --name-only | grep -v zz_seed_demo) || exit 2
 timeout 300 go test -mod=mod -vet=off -count=1 -run "$DEMO" $PKG > $OUT/demo_without.txt 2>&1; without=$?
 git stash pop -q
 tail -3 $OUT/demo_without.txt
+fi
+if [ $ONLY = all -o $ONLY = suite ]; then
 echo "== repository suite WITH the change"
 /verif/tools/baseline.sh $WT > $OUT/suite_with.txt 2>&1; suite=$?
 tail -2 $OUT/suite_with.txt
+fi
+if [ $ONLY = all -o $ONLY = checks ]; then
 echo "== checks against /repo with the patch applied"
 git -C /repo apply $OUT/patch.diff || { echo "patch does not apply to /repo"; exit 2; }
-res=""
 for p in $PROPS; do
   /verif/check $p --budget ${SEED_BUDGET:-20} > $OUT/check_$p.txt 2>&1; rc=$?
   res="$res $p:$rc"
@@ -33,4 +39,5 @@ for p in $PROPS; do
 done
 git -C /repo checkout -- .
 git -C /repo status --short | head -3
+fi
 echo "RESULT $NAME demo_with=$with demo_without=$without suite=$suite checks=$res"
